@@ -304,6 +304,7 @@ PROPS = {
     'src:Bits::base_type': ['C07', 'C10'],
     'src:Bits::is_arbitrary_int': ['C07'],
     'src:Exhaustive::matches': ['C10', 'C07'],
+    'src:ArgumentParser::take_*': ['C09'],
 }
 
 N_UNIT = """
@@ -342,11 +343,164 @@ Print Assumptions src_agrees.
 """
 
 
+# ------------------------------------------------------------------------------------------------
+# the transition functions of the attribute-argument automaton (ArgumentParser::take_*)
+
+AP_CTOR = {'Reset': 'Reset', 'ResetOnlyRangeAllowed': 'ResetOnlyRange', 'RangeGotLowerLimit': 'GotLower',
+           'RangeGotFirstPeriod': 'GotDot1', 'RangeGotSecondPeriod': 'GotDot2', 'RangeGotEquals': 'GotEq',
+           'RangeGotBothLimits': 'GotBoth', 'StrideStarted': 'StrideStarted', 'HasStrideEquals': 'StrideEq',
+           'StrideComplete': 'StrideDone', 'Read': 'ARead', 'Write': 'AWrite', 'ReadWrite': 'AReadWrite'}
+AP_ARITY = {'GotLower': 1, 'GotDot1': 1, 'GotDot2': 1, 'GotEq': 1, 'GotBoth': 2, 'StrideDone': 1}
+PC_OF_CHAR = {"'.'": 'PDot', "'='": 'PEq', "':'": 'PColon', "','": 'PComma'}
+
+
+class ApTr:
+    """match self { State(args) [if guard] => Ok(State'(..)), .. , _ => Err(..) } -> Gallina over Tokens.ap"""
+
+    def __init__(self, arg, kind):
+        self.arg = arg          # name of the second parameter
+        self.kind = kind        # 'lit' | 'punct' | 'ident'
+        self.env = {}
+
+    def ctor(self, segs):
+        if len(segs) == 2 and segs[0] in ('ArgumentParser', 'Self') and segs[1] in AP_CTOR:
+            return AP_CTOR[segs[1]]
+        raise Untranslatable('constructor ' + '::'.join(segs))
+
+    def pattern(self, p):
+        """-> list of (coq pattern, bound names)"""
+        if p['p'] == 'or':
+            out = []
+            for c in p['cases']:
+                out += self.pattern(c)
+            return out
+        if p['p'] == 'path':
+            c = self.ctor(p['segs'])
+            if AP_ARITY.get(c, 0) != 0:
+                raise Untranslatable('arity of ' + c)
+            return [(c, [])]
+        if p['p'] == 'tuple_struct':
+            c = self.ctor(p['path'])
+            names = []
+            for e in p['elems']:
+                if e['p'] == 'ident':
+                    names.append(e['name'])
+                elif e['p'] == 'wild':
+                    names.append('_')
+                else:
+                    raise Untranslatable('sub-pattern')
+            if AP_ARITY.get(c, 0) != len(names):
+                raise Untranslatable('arity of ' + c)
+            return [('%s %s' % (c, ' '.join(names)), [n for n in names if n != '_'])]
+        raise Untranslatable('pattern ' + json.dumps(p)[:80])
+
+    def value(self, e):
+        k = e.get('e')
+        if k == 'block' and len(e['b']['stmts']) == 1 and e['b']['stmts'][0]['s'] == 'expr':
+            return self.value(e['b']['stmts'][0]['e'])
+        if k == 'call' and e['f'].get('e') == 'path':
+            segs = e['f']['segs']
+            if segs == ['Ok'] and len(e['args']) == 1:
+                return '(Some %s)' % self.value(e['args'][0])
+            if segs == ['Err']:
+                return 'None'
+            if segs in (['Self', 'parse_literal_number'], ['ArgumentParser', 'parse_literal_number']) and self.kind == 'lit' \
+                    and len(e['args']) == 1 and e['args'][0].get('segs') == [self.arg]:
+                return self.arg       # the literal's numeric value (a literal that does not parse is a separate token kind in the model)
+            c = self.ctor(segs)
+            if AP_ARITY.get(c, 0) != len(e['args']):
+                raise Untranslatable('arity of ' + c)
+            return '(%s %s)' % (c, ' '.join(self.value(a) for a in e['args']))
+        if k == 'path':
+            if len(e['segs']) == 1 and e['segs'][0] in self.env:
+                return e['segs'][0]
+            c = self.ctor(e['segs'])
+            if AP_ARITY.get(c, 0) != 0:
+                raise Untranslatable('arity of ' + c)
+            return c
+        if k == 'try':
+            return self.value(e['x'])
+        if k == 'un' and e['op'] == '*':
+            return self.value(e['x'])
+        raise Untranslatable('value ' + json.dumps(e)[:80])
+
+    def guard(self, e):
+        k = e.get('e')
+        if k == 'bin' and e['op'] in ('||', '&&'):
+            return '(%s %s %s)' % (self.guard(e['l']), e['op'], self.guard(e['r']))
+        if k == 'bin' and e['op'] == '==':
+            l, r = e['l'], e['r']
+            if self.kind == 'punct' and l.get('e') == 'mcall' and l['method'] == 'as_char' and l['recv'].get('segs') == [self.arg] \
+                    and r.get('e') == 'lit' and r.get('tokens') in PC_OF_CHAR:
+                return '(match %s with %s => true | _ => false end)' % (self.arg, PC_OF_CHAR[r['tokens']])
+            if self.kind == 'ident' and l.get('e') == 'path' and l['segs'] == [self.sname] and r.get('e') == 'lit' and r.get('kind') == 'str':
+                return '(String.eqb %s "%s")' % (self.arg, r['value'])
+        raise Untranslatable('guard ' + json.dumps(e)[:80])
+
+    def arms(self, arms):
+        if not arms:
+            raise Untranslatable('no default arm')
+        a = arms[0]
+        if a['attrs']:
+            raise Untranslatable('attributes on an arm')
+        if a['pat']['p'] == 'wild' and a['guard'] is None:
+            return self.value(a['body'])
+        pats = self.pattern(a['pat'])
+        rest = self.arms(arms[1:])
+        branches = []
+        for cp, names in pats:
+            for n in names:
+                self.env[n] = True
+            body = self.value(a['body'])
+            if a['guard'] is not None:
+                body = '(if %s then %s else %s)' % (self.guard(a['guard']), body, rest)
+            for n in names:
+                self.env.pop(n, None)
+            branches.append('| %s => %s' % (cp, body))
+        return '(match self with %s | _ => %s end)' % (' '.join(branches), rest)
+
+    def function(self, f):
+        st = f['body']['stmts']
+        self.sname = None
+        if self.kind == 'ident' and len(st) == 2 and st[0]['s'] == 'let' and st[0]['init'].get('method') == 'to_string' \
+                and st[0]['init']['recv'].get('segs') == [self.arg]:
+            self.sname = st[0]['name']
+            st = st[1:]
+        if len(st) != 1 or st[0]['s'] != 'expr' or st[0]['e'].get('e') != 'match' or st[0]['e']['x'].get('segs') != ['self']:
+            raise Untranslatable('body is not a match on self')
+        return self.arms(st[0]['e']['arms'])
+
+
+AP_UNIT = """From BB Require Import Tokens.
+Definition first_diff := Eval vm_compute in
+  let states := [Reset; ResetOnlyRange; GotLower 3; GotDot1 3; GotDot2 3; GotEq 3; GotBoth 3 5; StrideStarted; StrideEq; StrideDone 4;
+                 ARead; AWrite; AReadWrite] in
+  (find (fun s => negb (beq_opt ap_eqb (src_take_literal s 7) (take_literal s 7))) states,
+   find (fun sc => negb (beq_opt ap_eqb (src_take_punct (fst sc) (snd sc)) (take_punct (fst sc) (snd sc))))
+        (list_prod states [PDot; PEq; PColon; PComma; POther]),
+   find (fun si => negb (beq_opt ap_eqb (src_take_ident (fst si) (snd si)) (take_ident (fst si) (snd si))))
+        (list_prod states ["rw"; "r"; "w"; "stride"; "x"; ""]%string)).
+Print first_diff.
+Theorem src_agrees :
+  (forall s n, src_take_literal s n = take_literal s n) /\\
+  (forall s c, src_take_punct s c = take_punct s c) /\\
+  (forall s id, src_take_ident s id = take_ident s id).
+Proof.
+  split; [|split].
+  - intros [] n; reflexivity.
+  - intros [] []; reflexivity.
+  - intros [] id; reflexivity.
+Qed.
+Print Assumptions src_agrees.
+"""
+
+
 def generate(xl_by_file):
     """-> list of units {label, desc, props, definition, coq (source text) | error}; never raises"""
     mod = xl_by_file.get('bitfield/mod.rs') or {}
     bs = xl_by_file.get('bit_size.rs') or {}
     be = xl_by_file.get('bitenum.rs') or {}
+    pa = xl_by_file.get('bitfield/parsing.rs') or {}
     units = []
 
     def attempt(label, desc, build):
@@ -422,6 +576,19 @@ def generate(xl_by_file):
              'Definition src_is_conditional (kind : exh_kind) : bool := %s.\n' % (body, tr2.block(g['body'])))
         return HEADER + d + MATCHES_UNIT, d
     attempt('src:Exhaustive::matches', "Exhaustive::matches and is_conditional = the model's, all kinds and both expectations", b_matches)
+
+    def b_ap():
+        defs = ''
+        for name, kind, argty in (('take_literal', 'lit', 'N'), ('take_punct', 'punct', 'pc'), ('take_ident', 'ident', 'string')):
+            f = find_fn(pa['items'], name, 'ArgumentParser')
+            params = [p for p in f['params'] if 'name' in p]
+            if len(params) != 1:
+                raise Untranslatable('parameters of ' + name)
+            tr = ApTr(params[0]['name'], kind)
+            defs += 'Definition src_%s (self : ap) (%s : %s) : option ap := %s.\n' % (name, params[0]['name'], argty, tr.function(f))
+        return HEADER + 'From BB Require Import Tokens.\n' + defs + AP_UNIT, defs
+    attempt('src:ArgumentParser::take_*', 'the three transition functions of the attribute-argument automaton (take_literal, take_punct, '
+            'take_ident) = the model\'s (Tokens.v), every state and every token', b_ap)
     return units
 
 
@@ -495,6 +662,17 @@ def probes_for(label, first_diff):
                     decl = decl.replace('bitenum(u1)', 'bitenum(u1, exhaustive = true)')
             out.append({'what': 'a bitenum over u%d is %s' % (n, 'valid, raw_value() is a u%d and 1 converts to B' % n if ok else 'rejected (1..=64 bits only)'),
                         'lib': hdr + decl + chk, 'expect_accept': ok})
+    elif label == 'src:ArgumentParser::take_*':
+        for attr, ty, ok in (('bits(0..=3, rw)', 'u4', True), ('bit(0, r)', 'bool', True), ('bit(1, w)', 'bool', True),
+                             ('bit(2)', 'bool', True), ('bits(0..=3, rw, stride = 4)', '[u4; 2]', True),
+                             ('bits(0..=3, rw, stride: 4)', '[u4; 2]', True), ('bits(0..=3, stride = 4, rw)', '[u4; 2]', True),
+                             ('bits([0..=1, 4..=5], rw)', 'u4', True), ('bits(0..3, rw)', 'u4', False), ('bits(0..=3, x)', 'u4', False),
+                             ('bits(0..=3, rw rw)', 'u4', False), ('bits(0..=3, rw, stride 4)', '[u4; 2]', False),
+                             ('bits(0..=3, rw, stride = = 4)', '[u4; 2]', False), ('bits(0..=3 4, rw)', 'u4', False),
+                             ('bits(0.=3, rw)', 'u4', False), ('bits(= 0..=3, rw)', 'u4', False), ('bits(rw 0..=3)', 'u4', False)):
+            decl = '#[bitbybit::bitfield(u16)]\npub struct P {\n    #[%s]\n    f: %s,\n}\n' % (attr, ty)
+            out.append({'what': 'a field declared #[%s] f: %s is %s' % (attr, ty, 'valid' if ok else 'rejected'),
+                        'lib': hdr + decl, 'expect_accept': ok})
     elif label == 'src:Exhaustive::matches':
         for kind, kw in (('ExTrue', 'true'), ('ExFalse', 'false'), ('ExConditional', 'conditional')):
             for full in (True, False):
